@@ -281,5 +281,5 @@ def run(ctx):
         for k, d in check_case(c):
             ctx.fail(k, c, d)
     names = sorted(M.universe())
-    n = ctx.scale(10, 150)
+    n = ctx.scale(16, 150)
     ctx.pmap(_worker, [(names[i::48], n, ctx.sub_seed("cls")) for i in range(48)])
